@@ -29,13 +29,13 @@ PRECONDITIONS = []
 FUNCTIONS = ["gffutils.create:create_db", "gffutils.create:_GFFDBCreator._update_relations", "gffutils.create:_GTFDBCreator._update_relations", "gffutils.iterators:DataIterator"]
 
 
-def _run(it, fmt, from_string, keep, force=False):
+def _run(it, fmt, from_string, keep, force=False, gz=False):
     dialect = dict(constants.dialect, fmt=fmt)
 
     def features(n, line, k):
         f, _ = IM.sym_feature("F%d" % n, {"gene_id": [IM.sval("F%d.gene_id" % n)[0]], "transcript_id": [IM.sval("F%d.transcript_id" % n)[0]], "ID": [IM.sval("F%d.ID" % n)[0]]})
         return f
-    base = PL.run_create_db(it, "F" if fmt == "gtf" else "FF", 1, dialect=dialect, features=features, _keep_tempfiles=keep, **({"force": True} if force else {}))
+    base = PL.run_create_db(it, "F" if fmt == "gtf" else "FF", 1, dialect=dialect, features=features, _keep_tempfiles=keep, **dict(({"force": True} if force else {}), **({"path": "/ghost/in.gff.gz"} if gz else {})))
     if not from_string:
         return base
 
@@ -71,17 +71,17 @@ _GFF_TEXTS = [
 ]
 
 
-def _native_tmp_replay(fmt, from_string, keep):
+def _native_tmp_replay(fmt, from_string, keep, gz=False):
     """input shapes tried: the ordinary hierarchy, then inputs with nothing to relate / infer"""
     last = None
     for text in (_GFF_TEXTS if fmt == "gff3" else _GTF_TEXTS):
-        last = _native_tmp_replay1(fmt, from_string, keep, text)
+        last = _native_tmp_replay1(fmt, from_string, keep, text, gz=gz)
         if last.get("violates"):
             return last
     return last
 
 
-def _native_tmp_replay1(fmt, from_string, keep, text):
+def _native_tmp_replay1(fmt, from_string, keep, text, gz=False):
     import tempfile, os, shutil
     d = tempfile.mkdtemp()
     old = tempfile.tempdir
@@ -91,10 +91,15 @@ def _native_tmp_replay1(fmt, from_string, keep, text):
         if from_string:
             gffutils.create_db(text, out, from_string=True, _keep_tempfiles=keep)
         else:
-            src = os.path.join(d, "in.txt")
-            open(src, "w").write(text)
+            src = os.path.join(d, "in.txt.gz" if gz else "in.txt")
+            if gz:
+                import gzip
+                with gzip.open(src, "wt") as fh:
+                    fh.write(text)
+            else:
+                open(src, "w").write(text)
             gffutils.create_db(src, out, _keep_tempfiles=keep)
-        left = sorted(x for x in os.listdir(d) if x not in ("out.db", "in.txt"))
+        left = sorted(x for x in os.listdir(d) if x not in ("out.db", "in.txt", "in.txt.gz"))
         exp_none = not keep
         return {"inputs": {"fmt": fmt, "from_string": from_string, "_keep_tempfiles": keep, "text": text}, "expected": "no intermediate file left" if exp_none else "kept files only",
                 "observed": left, "violates": bool(left) if exp_none else False}
@@ -126,14 +131,14 @@ def _native_force_replay(fmt):
 
 def unit_footprint(U):
     for fmt in ("gff3", "gtf"):
-        for from_string, force in ((False, False), (True, False), (False, True)):
+        for from_string, force, gz in ((False, False, False), (True, False, False), (False, True, False), (False, False, True)):
             for keep in (False, True):
-                if force and keep:
+                if (force or gz) and keep:
                     continue
                 it = Interp()
-                run = _run(it, fmt, from_string, keep, force=force)
-                base = "C20.create_db[%s,%s,keep=%s%s]" % (fmt, "from_string" if from_string else "file", keep, ",force" if force else "")
-                replay = (lambda m, fmt=fmt: _native_force_replay(fmt)) if force else (lambda m, fmt=fmt, from_string=from_string, keep=keep: _native_tmp_replay(fmt, from_string, keep))
+                run = _run(it, fmt, from_string, keep, force=force, gz=gz)
+                base = "C20.create_db[%s,%s,keep=%s%s]" % (fmt, "from_string" if from_string else ("gz-file" if gz else "file"), keep, ",force" if force else "")
+                replay = (lambda m, fmt=fmt: _native_force_replay(fmt)) if force else (lambda m, fmt=fmt, from_string=from_string, keep=keep, gz=gz: _native_tmp_replay(fmt, from_string, keep, gz=gz))
                 for p in U.explore(run, it):
                     if p.kind != "return":
                         U.prove(base + ".noraise#p%d" % p.index, "create_db raises nothing (got %r)" % (p.value,), p.pc, z3.BoolVal(False), {}, replay=replay)
